@@ -217,6 +217,7 @@ def generate(ctx):
         n = rng.choice([2, 2, 3])
         sd = gen_sys(rng, n, ctx.n(32, 64))
         solved = rng.random() < 0.35
+        if rng.random() < 0.3: sd['dom_from_dk'] = True
         obj = ['solved', rng.choice(['krylov', 'krylov', 'hybr', 'anderson'])] if solved else ['hand', rng.randrange(10 ** 6)]
         ops = gen_ops(rng, maxlen, solved)
         case = {'sys': sd, 'obj': obj, 'ops': ops}
